@@ -272,7 +272,9 @@ class CFG:
                 return False
             x = p
 
-    def reachable(self, a: int, avoiding: Iterable[int] = (), skip_exc: bool = False) -> Set[int]:
+    def reachable(self, a: int, avoiding: Iterable[int] = (), skip_exc: bool = False, skip_edge=None) -> Set[int]:
+        """``skip_edge(src_node, labels) -> bool``: edges proved irrelevant by the caller (e.g. the branch on which an
+        optional callable is None) are not followed."""
         avoid = set(avoiding)
         seen, stack = set(), [a]
         first = True
@@ -287,12 +289,14 @@ class CFG:
             for y in self.g.successors(x):
                 if skip_exc and self.g[x][y]["labels"] == {"exc"}:
                     continue
+                if skip_edge is not None and skip_edge(self.nodes[x], self.g[x][y]["labels"]):
+                    continue
                 if y not in avoid:
                     stack.append(y)
         return seen
 
-    def can_reach(self, a: int, b: int, avoiding: Iterable[int] = (), skip_exc: bool = False) -> bool:
-        return b in self.reachable(a, avoiding, skip_exc)
+    def can_reach(self, a: int, b: int, avoiding: Iterable[int] = (), skip_exc: bool = False, skip_edge=None) -> bool:
+        return b in self.reachable(a, avoiding, skip_exc, skip_edge)
 
     def in_loop(self, nid: int) -> List[int]:
         return [h for h, body in self.loops.items() if nid in body]
